@@ -31,7 +31,7 @@ type Tok struct {
 // panics — and so leaves the password in the pack — when a token holds a letter
 // whose lower-case form has a different byte length. While that finding is listed
 // as open the generator keeps such letters out of the connection strings.
-const paramKVFinding = "F-C07-PARAMKV" // placeholder: the lead assigns the real number
+const paramKVFinding = "F40" // fixed in /repo; the exclusion is active only while F40 is listed open
 
 // letters whose lower-case form is longer (U+0130, U+023A) or shorter (U+212A Kelvin sign)
 const unstableChars = "İȺ\u212a"
